@@ -148,7 +148,11 @@ def replay(case):
                     continue       # the eigenvalue that becomes dominant after the deflation must be simple
                 P = [tt_of_vector(TT, V[:, -1 - k] if cplx else np.real(V[:, -1 - k]), dims) for k in range(ndefl)]
                 s = -(width + 1.0)
+                psnap = value_snapshot(P)
                 lam1, t1, _ = evp.als(A, xfull, previous=P, shift=s, repeats=2, solver='eigh', sigma=w[-1], **kw)
+                why = value_changed(psnap)
+                if why:
+                    out.append(('operand_changed', 'a deflation tensor was modified by the eigen-solver (%s)' % why))
                 A2 = A
                 for p in P:
                     A2 = A2 + s * (p @ p.transpose(conjugate=True))
